@@ -2,7 +2,7 @@
    Only statements.  Model: Async/Conn.v.  (Termination/no-panic of the whole task for every fault
    position is added as its proof completes; until then it is decided by the correspondence check
    with EOF at every byte offset and a fault at every read / write call index.) *)
-From FV Require Import Base.Bytes Gen.Generated Parser.StreamModel Async.Conn Async.ConnWrites.
+From FV Require Import Base.Bytes Gen.Generated Parser.ReqModel Parser.ReqTargets Parser.StreamModel Async.Conn Async.ConnWrites Async.ConnTotal.
 
 (* write_all on the transport, for EVERY write script (faults included): either everything was
    written, or the call failed / the task stopped having written only a PREFIX of the bytes —
@@ -24,6 +24,33 @@ Theorem C12_writer_prefix : forall fuel stype id data w,
   wspec false (stream_records stype id data) w (fuel < N.to_nat (len data / 65535) + 2)%nat
         (writer_write_all fuel stype id data w).
 Proof. exact writer_write_all_spec. Qed.
+
+(* the connection task terminates without panicking or spinning: for EVERY read script and write script
+   (read errors, write errors, zero-length writes, spurious not-ready results at any call index), every
+   client byte string cut off at any offset (an ungated client: all bytes, then EOF), every buffer size
+   and every list of well-formed handler scripts, the model returns — neither a Rust panic site nor a
+   loop bound of the model is ever reached *)
+Theorem C12_terminates : forall (norm : bytes -> bytes) (maxc : N) scripts B w0,
+  world_ok w0 -> scripts_ok true scripts -> B < SIZE_LIMIT - 8 -> ungated w0 ->
+  exists w, run_loop norm maxc (nb w0 + 4) (new_parser B) scripts 0 w0 = (ORet, w).
+Proof. exact run_loop_terminates. Qed.
+
+(* with a gated (closed-loop) client the only other outcome is the task suspended on a read that the
+   client does not satisfy; still no panic, no spin *)
+Theorem C12_total : forall (norm : bytes -> bytes) (maxc : N) scripts B w0,
+  world_ok w0 -> scripts_ok true scripts -> B < SIZE_LIMIT - 8 ->
+  exists w, run_loop norm maxc (nb w0 + 4) (new_parser B) scripts 0 w0 = (ORet, w) \/
+            (run_loop norm maxc (nb w0 + 4) (new_parser B) scripts 0 w0 = (ODeadlock, w) /\ ~ ungated w0).
+Proof. exact run_loop_total. Qed.
+
+(* handler scripts that select streams (set_stream) the role may reject: the only additional outcome
+   is the handler's own panic on the rejected selection (documented: Request::set_stream panics) *)
+Theorem C12_total_lax : forall (norm : bytes -> bytes) (maxc : N) scripts B w0,
+  world_ok w0 -> scripts_ok false scripts -> B < SIZE_LIMIT - 8 ->
+  exists w, run_loop norm maxc (nb w0 + 4) (new_parser B) scripts 0 w0 = (ORet, w) \/
+            (run_loop norm maxc (nb w0 + 4) (new_parser B) scripts 0 w0 = (ODeadlock, w) /\ ~ ungated w0) \/
+            run_loop norm maxc (nb w0 + 4) (new_parser B) scripts 0 w0 = (OPanic 70, w).
+Proof. exact run_loop_total_lax. Qed.
 
 Example C12_example :
   exists w', await_write_all 10 false [1; 2; 3; 4] (mkW [] [2; W_ERR] [] [] 0 1 0 false true []) = Ok (Some EK_Transport) w'
